@@ -814,6 +814,11 @@ class COOSubjac(SparseSubjac):
         dtype : dtype
             The type to set the subjacobian to.
         """
+        if issparse(self.info['val']):
+            # scipy COO value: only the data array changes dtype
+            super().set_dtype(dtype)
+            return
+
         if dtype.kind == self.info['val'].dtype.kind:
             return
 
